@@ -110,7 +110,7 @@ struct USock
 
 struct RxRec { int sock; std::uint64_t dgram; std::int64_t t; };
 
-struct NodeSpec { ip::address a; bool natted = false; ip::address ext; };
+struct NodeSpec { ip::address a; bool natted = false; ip::address ext; bool natted2 = false; ip::address ext2; };
 
 struct World
 {
@@ -139,7 +139,7 @@ struct World
 	void build()
 	{
 		net.log = &log;
-		if (with_nat) for (auto const& n : nodes) if (n.natted) net.nat_ext[n.a] = n.ext;
+		if (with_nat) for (auto const& n : nodes) if (n.natted) { net.nat_ext[n.a] = n.ext; if (n.natted2) net.nat_ext2[n.a] = n.ext2; }
 		sim.reset(new sim::simulation(net));
 		M().last_clock = 0;
 		for (auto const& n : nodes) ios.emplace_back(new asio::io_context(*sim, n.a));
@@ -148,7 +148,11 @@ struct World
 	}
 
 	ip::address visible(int node) const
-	{ return (with_nat && nodes[std::size_t(node)].natted) ? nodes[std::size_t(node)].ext : nodes[std::size_t(node)].a; }
+	{
+		NodeSpec const& n = nodes[std::size_t(node)];
+		// with two NATs in a row the outer one's address is what the world sees
+		return (with_nat && n.natted) ? (n.natted2 ? n.ext2 : n.ext) : n.a;
+	}
 
 	USock& add_sock(int node)
 	{
@@ -608,6 +612,7 @@ void gen_and_run(World& w, bool c20)
 	{
 		NodeSpec n; n.a = addr(w.v6 ? fmt("fd00:2::%d:1", i + 1).c_str() : fmt("10.2.%d.1", i + 1).c_str());
 		if (!c20 && !w.v6 && rng.coin(1, 3)) { n.natted = true; n.ext = addr(rng.coin() ? "77.7.7.7" : fmt("77.7.%d.7", i + 1).c_str()); }
+		if (n.natted && rng.coin(1, 3)) { n.natted2 = true; n.ext2 = addr(fmt("88.8.%d.8", i + 1).c_str()); R().count("nodes_behind_two_nats"); }
 		w.nodes.push_back(n);
 	}
 	static std::vector<std::int64_t> const lats = {0, 1000, 1000000, 20000000, 200000000};
@@ -630,7 +635,7 @@ void gen_and_run(World& w, bool c20)
 		if (rng.coin() && nn >= 2) w.net.set_mtu(w.nodes[0].a, w.nodes[1].a, int(rng.range(1, 3000)));
 	}
 	w.desc = fmt("%s %d %s nodes%s mtu=%d", c20 ? "C20" : "C08", nn, w.v6 ? "IPv6" : "IPv4", finite ? " finite-queues" : "", mtu);
-	for (auto const& n : w.nodes) if (n.natted) w.desc += " nat(" + n.a.to_string() + "->" + n.ext.to_string() + ")";
+	for (auto const& n : w.nodes) if (n.natted) w.desc += " nat(" + n.a.to_string() + "->" + n.ext.to_string() + (n.natted2 ? "->" + n.ext2.to_string() : std::string()) + ")";
 	R().cur_desc = w.desc;
 	w.build();
 
